@@ -17,7 +17,8 @@ ID = "C08"
 LEVEL = "model_checking"
 RULE = (
     "BFS over event histories (depth <= 12 or fix-point) on crops of 1..8 "
-    "batches with and without a remainder; state = (tree hash of the crop "
+    "batches with and without a remainder, plus crops of 12 and 101 batches "
+    "(two- and three-digit ids) with a sparser alphabet to depth 3-5; state = (tree hash of the crop "
     "directory, whether the live Crop object is the sower or a reload); every "
     "transition replays the whole history on fresh real objects; non-trivial "
     "= distinct reachable states"
@@ -47,16 +48,23 @@ def configs(tier):
     q = [(2, "batchsize", 2), (4, "batchsize", 2), (3, "num_batches", 2),
          (5, "num_batches", 3), (6, "batchsize", 2), (7, "num_batches", 4),
          (4, "batchsize", 1), (5, "batchsize", 2)]
+    # two- and three-digit batch ids: a sparser alphabet, bounded depth
+    wide = [{"N": 12, "mode": "batchsize", "req": 1, "alpha": "sparse",
+             "depth": 4 if tier == "quick" else 5,
+             "max_states": 150 if tier == "quick" else 1500},
+            {"N": 101, "mode": "num_batches", "req": 101, "alpha": "sparse",
+             "depth": 3 if tier == "quick" else 4,
+             "max_states": 60 if tier == "quick" else 400}]
     if tier == "quick":
         return [{"N": n, "mode": m, "req": r, "alpha": "full", "depth": 12}
-                for n, m, r in q]
+                for n, m, r in q] + wide
     t = [{"N": n, "mode": m, "req": r, "alpha": "full", "depth": 12}
          for n, m, r in q + [(9, "num_batches", 5), (5, "batchsize", 1),
                              (7, "batchsize", 3)]]
     t += [{"N": n, "mode": m, "req": r, "alpha": "grow", "depth": 12}
           for n, m, r in [(11, "num_batches", 6), (7, "batchsize", 1),
                           (15, "num_batches", 8), (16, "batchsize", 2)]]
-    return t
+    return t + wide
 
 
 def nbatches(cfg):
@@ -135,6 +143,13 @@ class World:
         B = self.B
         if not self.sown:
             return [["sow"]]
+        if self.cfg["alpha"] == "sparse":
+            ids = sorted({1, 2, 9, 10, 11, B - 1, B})
+            ev = [["grow", i] for i in ids]
+            ev += [["cgrow", [10, 9]], ["cgrow", [B, 1]], ["grow_missing"],
+                   ["fgrow", 10], ["ugrow", B], ["check_bad"], ["reload"]]
+            ev += [["delete", i] for i in sorted(finished)[-2:]]
+            return ev
         ev = [["grow", i] for i in range(1, B + 1)]
         if self.cfg["alpha"] == "grow":
             ev += [["grow_missing"], ["cgrow", [1, B]], ["reload"]]
@@ -385,6 +400,7 @@ def run(ctx):
     per = {}
     for cfg in configs(ctx.tier):
         r = histbfs.bfs(ctx, "expand", cfg, cfg["depth"],
+                        max_states=cfg.get("max_states"),
                         label="N%d%s%d" % (cfg["N"], cfg["mode"][0], cfg["req"]))
         states += r["states"]
         transitions += r["transitions"]
